@@ -329,3 +329,59 @@ func seedStreams() []*seedStream {
 	}
 	return out
 }
+
+// longFieldStreams: valid streams whose single fields are long (hundreds of bytes to 64 KiB), so that one field
+// arrives in hundreds or thousands of reads under fine-grained delivery. Used by C18 only.
+func longFieldStreams() []*seedStream {
+	var out []*seedStream
+	add := func(name string, d *streamDecoder, data []byte) {
+		out = append(out, &seedStream{name: name, dec: d, data: data})
+	}
+	long := func(n int, b byte) string {
+		x := make([]byte, n)
+		for i := range x {
+			x[i] = b + byte(i%23)
+		}
+		return string(x)
+	}
+	for i, n := range []int{101, 300, 2000, 65535} {
+		c := &objects.Commit{Table: bytes.Repeat([]byte{byte(0x41 + i)}, 16), AuthorName: long(n/2+1, 'A'), AuthorEmail: long(n/3+1, 'a'), Message: long(n, 'm'),
+			Time: time.Unix(1700000000, 0).UTC(), Parents: [][]byte{bytes.Repeat([]byte{0x50}, 16)}}
+		add(fmt.Sprintf("commit-long%d", n), decCommit, mustBytes(func(w io.Writer) error { _, err := c.WriteTo(w); return err }))
+	}
+	for _, n := range []int{101, 300, 65535} {
+		t := objects.NewTable([]string{"id", long(n, 'c'), long(n/2, 'd')}, []uint32{0})
+		t.RowsCount = 300
+		for j := 0; j < 2; j++ {
+			t.Blocks = append(t.Blocks, bytes.Repeat([]byte{byte(0x61 + j)}, 16))
+			t.BlockIndices = append(t.BlockIndices, bytes.Repeat([]byte{byte(0x71 + j)}, 16))
+		}
+		add(fmt.Sprintf("table-longcol%d", n), decTable, mustBytes(func(w io.Writer) error { _, err := t.WriteTo(w); return err }))
+	}
+	for _, n := range []int{101, 300, 5000} {
+		tp := &objects.TableProfile{Version: 1, RowsCount: 3, Columns: []*objects.ColumnProfile{
+			{Name: long(n/2, 'n'), TopValues: objects.ValueCounts{{Value: long(n, 'q'), Count: 2}, {Value: "", Count: 1}}, MaxStrLen: uint16(n % 65536)},
+		}}
+		add(fmt.Sprintf("profile-long%d", n), decProfile, mustBytes(func(w io.Writer) error { _, err := tp.WriteTo(w); return err }))
+	}
+	for _, n := range []int{101, 300, 2000, 60000} {
+		var b bytes.Buffer
+		buf := misc.NewBuffer(nil)
+		for _, l := range []string{"want 0123", long(n, 'p'), "", long(n/2, 'r')} {
+			if err := pktline.WritePktLine(&b, buf, l); err != nil {
+				panic("mc: infrastructure: cannot write a pkt-line of " + fmt.Sprint(len(l)) + " bytes: " + err.Error())
+			}
+		}
+		add(fmt.Sprintf("pktlines-long%d", n), decPktLines, b.Bytes())
+	}
+	{
+		enc := objects.NewStrListEncoder(false)
+		var b bytes.Buffer
+		for _, sl := range [][]string{{"a", long(300, 's'), ""}, {long(65535, 't')}, {"x"}} {
+			b.Write(enc.Encode(sl))
+		}
+		add("strlists-long", decStrList, append([]byte{}, b.Bytes()...))
+		add("strlists-long-bytes", decStrListBytes, append([]byte{}, b.Bytes()...))
+	}
+	return out
+}
